@@ -221,6 +221,28 @@ def applyBinaryOp (op : Nat → Nat → Nat) (d dofs r ro len : Nat) : Nat :=
     let len' := len - n
     if len' = 0 then d1 else alignedBinOp op d1 (dofs + n) r (ro + n) len'
 
+/-- `byte_aligned_bitwise_unary_op_helper` (`dofs % 8 = 0`): `apply_unary_op` is `apply_bin_op`
+with a dead right operand, as in the Rust. -/
+def alignedUnOp (opu : Nat → Nat) (d dofs len : Nat) : Nat :=
+  let nChunks := len / 64
+  let remLen := len % 64
+  let d1 := zipModify (fun a _ => opu a) (dofs / 8) 0 (List.replicate nChunks 0) d
+  if remLen > 0 then
+    let off := dofs / 8 + 8 * nChunks
+    let left := getRemainderBits d1 off remLen
+    setRemainderBits d1 off (u64 (opu left)) remLen
+  else d1
+
+/-- `apply_bitwise_unary_op(buffer, offset_in_bits, len_in_bits, op)` -/
+def applyUnaryOp (opu : Nat → Nat) (d dofs len : Nat) : Nat :=
+  if len = 0 then d
+  else if dofs % 8 = 0 then alignedUnOp opu d dofs len
+  else
+    let d1 := alignToByte opu d dofs len
+    let n := 8 - dofs % 8
+    let len' := len - n
+    if len' = 0 then d1 else alignedUnOp opu d1 (dofs + n) len'
+
 /-! ### word-at-a-time construction (`BooleanBuffer::from_bitwise_binary_op`, ops.rs) -/
 
 /-- pack a list of u64 words into a buffer value (word `k` at bits `64k..`) -/
